@@ -11,6 +11,7 @@ import M17.Model.Puncture
 import M17.Model.Callsign
 import M17.Model.Prbs
 import M17.Model.Viterbi
+import M17.Model.Decoder
 
 open M17
 
@@ -45,7 +46,22 @@ def prbsScenario (toks : List Int) : String :=
 
 /-- state carried across lines (stateful components get a field each) -/
 structure DrvState where
-  dummy : Nat := 0
+  dec : Dec.DState := Dec.init
+
+def modeNum : Dec.Mode → Nat
+  | .lsf => 0 | .stream => 1 | .basicPacket => 2 | .fullPacket => 3 | .bert => 4
+def resultNum : Dec.Result → Nat
+  | .fail => 0 | .ok => 1 | .eos => 2 | .incomplete => 3 | .packetIncomplete => 4
+def ftypeNum : Dec.FType → Nat
+  | .lsf => 0 | .lich => 1 | .stream => 2 | .basicPacket => 3 | .fullPacket => 4 | .bert => 5
+def syncOf (n : Int) : Dec.Sync := if n == 0 then .lsf else if n == 1 then .stream else if n == 2 then .packet else .bert
+
+def showStep (o : Dec.StepOut) : String :=
+  let cs := match o.cost with
+    | none => "none"
+    | some c => if c == Dec.sizeMax then "max" else toString c
+  let calls := o.calls.foldl (fun acc c => acc ++ s!" | {ftypeNum c.ftype} {c.cost} {joinNats c.bytes}") ""
+  s!"{resultNum o.result} {modeNum o.state.mode} {o.state.mask} {cs} {joinNats o.state.lsfBuf}{calls}"
 
 def handle (st : DrvState) (op : String) (a : List Int) : DrvState × String :=
   match op, a with
@@ -103,6 +119,11 @@ def handle (st : DrvState) (op : String) (a : List Int) : DrvState × String :=
     let (c, bits) := Vit.decode llr.toNat v nout.toNat
     let m := Vit.dp ((Vit.pairs v).map (fun p => Vit.branch (Vit.costTbl llr.toNat) p.1 p.2)) Vit.initMetrics
     (st, joinInts (Int.ofNat c :: Int.ofNat (m.foldl max 0) :: bitsToInts bits))
+  | "dec_new", _ => ({ st with dec := Dec.init }, "ok")
+  | "dec_reset", _ => ({ st with dec := Dec.reset st.dec }, "ok")
+  | "dec_frame", sync :: cb :: v =>
+    let o := Dec.step st.dec (syncOf sync) v (cb != 0)
+    ({ st with dec := o.state }, showStep o)
   | _, _ => (st, "bad-op")
 
 partial def loop (h : IO.FS.Stream) (out : IO.FS.Stream) (st : DrvState) : IO Unit := do
